@@ -114,7 +114,12 @@ def classify(ck, label, reqs, res):
         info["accepted"] += 1
         src = src_of(r)
         if e == "panic" or e in ("abort", "timeout"):
+            # C06: an ACCEPTED program crashed the real interpreter (since the D-06/D-04 fix none is
+            # expected in any stream, the complete product included): an implementation-level failure
             info["panics"].append({"line": i + 1, "tag": tag_of(r), "src": src, "impl": a})
+            ck.oracle_fails.append({"family": FAMILY, "line": i + 1, "request": r,
+                                    "what": f"[C06] accepted program ends with {a.split('end=')[-1]} "
+                                            f"({tag_of(r) or label})", "history": [r]})
         if label == "main":
             for name, rx in FEATURES:
                 if rx.search(src):
